@@ -297,3 +297,54 @@ Proof.
 Qed.
 
 End RT.
+
+(** * unrecognised entries: the writer half — an entry of the catch-all dictionary whose key is neither a field key
+      nor /Type nor a checked key is written back verbatim *)
+Theorem write_keeps_unknown SC H f i s vs dw k :
+  get_struct SC i = Some s -> schema_wf s = true ->
+  write SC H (S f) (TStruct i) (VStruct vs) = TOk (PDict dw) ->
+  key_fresh k (s_fields s) = true -> beqb k TypeKey = false ->
+  forallb (fun c => negb (beqb k (fst c))) (s_checks s) = true ->
+  dget k dw = dget k (other_of (s_fields s) vs).
+Proof.
+  intros Hs Hwf Hw Hk Ht Hc. cbn [write] in Hw. rewrite Hs in Hw.
+  rewrite (write_fields_get _ _ _ Hk _ _ _ Hw). rewrite base_of_from. apply base_from_get_other; assumption.
+Qed.
+
+(** * the schemas of the Rust sources as they are now (computed on Gen.Generated on every run) *)
+Definition has_indirect (s : schema) : bool := existsb f_indirect (s_fields s).
+Definition rw (s : schema) : bool := s_read s && s_write s.
+
+Lemma generated_wf :
+  forallb (fun s => negb (rw s) || has_indirect s || schema_wf s) (structs gen_schemas) = true.
+Proof. vm_compute. reflexivity. Qed.
+
+(* the structs with an `indirect` field (written through the Updater: Derive.write_top) are never nested by value in
+   another derived type, so the pure writer never meets them below the top level *)
+Fixpoint mentions_struct (fuel : nat) (j : N) (t : ty) : bool :=
+  match fuel with
+  | O => true
+  | S f =>
+    match t with
+    | TStruct i => i =? j
+    | TOption t0 | TVec t0 | TMap t0 | TBox t0 | TMaybeRef t0 => mentions_struct f j t0
+    | TPair a b => mentions_struct f j a || mentions_struct f j b
+    | _ => false      (* RcRef / Lazy / Ref hold references, not values *)
+    end
+  end.
+
+Definition indirect_not_nested (SC : schemas) : bool :=
+  forallb (fun js => negb (has_indirect (snd js)) ||
+     forallb (fun s => forallb (fun fd => negb (mentions_struct 16 (fst js) (f_ty fd))) (s_fields s)) (structs SC))
+    (combine (map N.of_nat (seq 0 (length (structs SC)))) (structs SC)).
+
+Lemma generated_indirect_not_nested : indirect_not_nested gen_schemas = true.
+Proof. vm_compute. reflexivity. Qed.
+
+(* `indirect` fields are Option<MaybeRef<_>> (the re-read value holds the reference: no second allocation) or
+   Option<struct> (Trailer.Info: the object is created anew, the reference number differs, its content is equal) *)
+Lemma generated_indirect_fields :
+  forallb (fun s => forallb (fun fd => negb (f_indirect fd) ||
+      match f_ty fd with TOption (TMaybeRef _) | TOption (TStruct _) => true | _ => false end) (s_fields s))
+    (structs gen_schemas) = true.
+Proof. vm_compute. reflexivity. Qed.
